@@ -280,7 +280,7 @@ def random_ode_case(r, name, nmax=None):
         # strictly positive weights for ODE models
         for kk in ('ew', 'nw'):
             if g.get(kk):
-                g[kk] = {a: [w if w > 0 else 0.5 for w in ws] for a, ws in g[kk].items()}
+                g[kk] = {a: [min(4.0, max(0.25, w)) if w > 0 else 0.5 for w in ws] for a, ws in g[kk].items()}   # moderate: no artificially stiff systems
         case['graph'] = g
         case['wm'] = m['wm']
         case['pass_nodelist'] = r.random() < 0.5
